@@ -151,6 +151,26 @@ class U(Field):
 
 
 @dataclass
+class E(U):
+    """one byte with an enumerated value range; values outside ``valid`` are ISOSAEReserved: the table neither
+    requires them to be accepted nor to be rejected (decode marks the message as 'open')."""
+
+    valid: tuple[int, ...] = ()
+
+    def dec(self, buf, pos, vals, ctx):  # type: ignore[no-untyped-def]
+        pos = super().dec(buf, pos, vals, ctx)
+        if vals[self.name] not in self.valid:
+            ctx["#open"] = f"reserved:{self.name}"
+        return pos
+
+    def alphabet(self, tier: str) -> list[int]:
+        return list(self.valid)
+
+    def bad(self) -> list[int]:
+        return [-1, 0x100]
+
+
+@dataclass
 class K(Field):
     """constant byte (e.g. inputOutputControlParameter of the convenience variants)"""
 
@@ -349,6 +369,8 @@ class LFID(Field):
         if b >> 4 == 0:
             raise Reject("length-format-zero")
         ctx[self.name] = {"len": b >> 4}
+        if b & 0x0F:
+            ctx["#open"] = "reserved:low-nibble"
         vals[self.name] = b
         return pos + 1
 
@@ -532,6 +554,10 @@ class TAILMAP(Field):
 
     def dec(self, buf, pos, vals, ctx):  # type: ignore[no-untyped-def]
         vals[self.name] = [] if pos >= len(buf) else [(buf[pos], bytes(buf[pos + 1 :]))]
+        if pos >= len(buf):
+            ctx["#open"] = "conditional:no-record"  # DTCExtDataRecord is conditional; editions differ on its absence
+        elif buf[pos] in (0x00, 0xFE, 0xFF):
+            ctx["#open"] = "reserved:record-number"
         return len(buf)
 
 
@@ -556,8 +582,10 @@ class Kind:
     joined: list[tuple[str, ...]] = field(default_factory=list)
     # public attributes of the gallia object that are functions of the table values
     derived: dict[str, Any] = field(default_factory=dict)
-    # response parameter -> predicate(request values, response value) for relations that are not equalities
+    # predicate(request values, response values) for a request/response relation that is not an equality
     relation: Any = None
+    # request values -> response values that satisfy ``relation`` (None if no genuine reply exists / too large)
+    genuine_free: Any = None
 
     def fields(self, side: str) -> list[Any]:
         return self.req if side == "req" else self.rsp
@@ -629,17 +657,24 @@ def encode(kind: Kind, side: str, vals: dict[str, Any]) -> bytes:
     return out
 
 
-def decode(kind: Kind, side: str, buf: bytes) -> dict[str, Any]:
-    """values the layout places at the byte positions of ``buf``; raises Reject if ill-formed."""
+def decode(kind: Kind, side: str, buf: bytes, info: dict[str, Any] | None = None) -> dict[str, Any]:
+    """values the layout places at the byte positions of ``buf``; raises Reject if ill-formed.
+
+    ``info`` (optional) receives 'open' (reason, if the message uses a reserved / conditional encoding the
+    table takes no position on) and 'partial' (values decoded before a Reject)."""
     if not buf or buf[0] != kind.first_byte(side):
         raise Reject("service-id")
     ctx: dict[str, Any] = {}
     vals: dict[str, Any] = {}
+    if info is not None:
+        info["partial"] = vals
     pos = 1
     for f in kind.fields(side):
         pos = f.dec(buf, pos, vals, ctx)
     if pos != len(buf):
         raise Reject("trailing-bytes")
+    if info is not None:
+        info["open"] = ctx.get("#open")
     return vals
 
 
@@ -660,7 +695,7 @@ def _dtc_number(name: str, sub: int, cls: str, client: str | None) -> Kind:
     return Kind(
         f"ReadDTCInformation/{name}", 0x19, sub=sub,
         req=[SUBQ(fixed=sub), U("dtc_status_mask")],
-        rsp=[SUBR(fixed=sub), U("dtc_status_availability_mask"), U("dtc_format_identifier"), U("dtc_count", 2)],
+        rsp=[SUBR(fixed=sub), U("dtc_status_availability_mask"), E("dtc_format_identifier", valid=(0, 1, 2, 3)), U("dtc_count", 2)],
         req_cls=cls + "Request", rsp_cls=cls + "Response", client=client, echo=[("#sub", "#sub", True)],
     )  # fmt: skip
 
@@ -768,7 +803,8 @@ KINDS: list[Kind] = [
          rsp=[B("data_record", min=1)],
          req_cls="ReadMemoryByAddressRequest", rsp_cls="ReadMemoryByAddressResponse",
          client="read_memory_by_address",
-         relation=lambda q, r: len(r["data_record"]) == q["memory_size"]),
+         relation=lambda q, r: len(r["data_record"]) == q["memory_size"],
+         genuine_free=lambda q: {"data_record": bytes([0xA5]) * q["memory_size"]} if 0 < q["memory_size"] <= 4096 else None),
     Kind("DynamicallyDefineDataIdentifier/defineByIdentifier", 0x2C, sub=1,
          req=[SUBQ(fixed=1), U("dynamically_defined_data_identifier", 2),
               REP([U("source_data_identifiers", 2), U("positions_in_source_data_record"), U("memory_sizes")], min=1)],
@@ -1001,7 +1037,7 @@ def value_sets(kind: Kind, side: str, tier: str) -> Iterator[dict[str, Any]]:
             return [{f.name: tuple(0 for _ in tops)}, {f.name: tuple(tops)}, {f.name: tuple(t // 3 for t in tops)}]
         if isinstance(f, TAILMAP):
             recs = [b"", b"\x17", b"\x00\xff\x10"] + ([bytes(300)] if tier != "small" else [])
-            return [{f.name: []}] + [{f.name: [(k, r)]} for k in small([0, 1, 0x7F, 0xFD]) for r in recs]
+            return [{f.name: []}] + [{f.name: [(k, r)]} for k in small([1, 2, 0x7F, 0xFD]) for r in recs]
         if isinstance(f, REP):
             out = []
             lo = f.min
